@@ -53,6 +53,16 @@ def run(chk):
         mode = rng.choice(["null", "flag0", "dir", "dir", "dir-noflag", "dir-prefix", "dir-prefix"])
         od = os.path.join(base, "o%d" % wi) + "/"
         os.makedirs(od)
+        if wi % 5 == 2:
+            # character arguments reach the world verbatim, trailing blanks included: the world file is called "<name>.wb " (a
+            # neighbour "<name>.wb" holds another world), the output path ends in a blank ("%20" in the line protocol)
+            mode = "dir-blank"
+            other = json.loads(json.dumps(wj))
+            other["potential mantle temperature"] = 1234.5
+            other["features"] = []
+            json.dump(other, open(os.path.join(cs.dir, "blank%d.wb" % slot), "w"))
+            shutil.copy(path, os.path.join(cs.dir, "blank%d.wb " % slot))
+            path = os.path.join(cs.dir, "blank%d.wb%%20" % slot)
         if mode == "null":
             hd, dr = "null", "null"
         elif mode == "flag0":
@@ -62,6 +72,8 @@ def run(chk):
         elif mode == "dir-prefix":
             # the world concatenates the string and the file name: a path without a trailing slash is a file-name prefix
             hd, dr = "1", od + "pre"
+        elif mode == "dir-blank":
+            hd, dr = "1", od + "run%20"
         else:
             hd, dr = "0", od
         i0 = cs.raw("nworld %d %s 0 null %d" % (slot, path, seed), "let () = out_str \"skip\"", {"kind": "create", "world": wj})
@@ -151,6 +163,13 @@ def run(chk):
                 d["files_in_working_dir"] = stray
                 viol.append(("create_world does not hand the full output directory path to the world "
                              "(declaration files expected in the directory, found %s; stray files %s)" % (present, stray[:4]), d))
+        elif mode == "dir-blank":
+            chk.nontriv(("dir", od))
+            if present != sorted("run " + x for x in DECL):
+                d = cs.describe(i1)
+                d["files_in_output_dir"] = present
+                viol.append(("create_world changes the output path on its way to the world (a path ending in a blank: the native World "
+                             "writes '<path> world_builder_declarations.*'; found %s)" % (present,), d))
         elif mode == "dir-prefix":
             chk.nontriv(("dir", od))
             if present != sorted("pre" + x for x in DECL):
